@@ -18,6 +18,7 @@ KNOWN_IDS = {"KF-C16-length-collision": ["0:CFG-FIXSEED", "1:CFG-FIXSEED", "0:CF
              "KF-C16-cfgnvs-dup-flags": ["1:CFG-NVS"],
              "KF-C16-size-in-bitfield": ["1:ESF-MEAS", "0:SEC-OSNMA"],
              "KF-C16-foobar": ["0:FOO-BAR"],
+             "KF-C16-reserved-name-clash": ["0:CFG-NAV5", "1:CFG-NAV5", "0:CFG-SMGR", "1:CFG-SMGR", "0:CFG-ESFWT", "1:CFG-ESFWT"],
              "KF-C16-unreachable": ["0:AID-ALP-ACK", "0:SEC-UNIQID-V2", "0:UBX-NOMINAL", "0:RXM-PMP-V0", "0:RXM-PMP-V1",
                                     "1:CFG-NMEAv0", "1:CFG-NMEAvX"]}
 
@@ -151,4 +152,15 @@ def matches_known(k, f):
 
 
 def replay_known(ctx, k):
+    if k["id"] == "KF-C16-reserved-name-clash":
+        # the reserved flag of `mask` and the attribute reserved0 read the same keyword
+        try:
+            with impl.quiet():
+                UBXMessage("CFG", "CFG-NAV5", 0, reserved0=39413)
+        except ube.UBXTypeError:
+            return {"what": "name-clash"}
+        return None
+    if k["id"] == "KF-C16-unreachable":
+        from pyubx2 import UBX_MSGIDS, UBX_PAYLOADS_GET
+        return {"what": "unreachable"} if "AID-ALP-ACK" in UBX_PAYLOADS_GET and "AID-ALP-ACK" not in UBX_MSGIDS.values() else None
     return None
